@@ -223,7 +223,7 @@ def replay(vec_path, out_path, tid0=0, src="tlc", fx_path=None):
         for v in read_vectors(vec_path):
             js = v["prf"]
             n += 1
-            ev = {"tid": tid0 + n, "key": "%s:%s" % (src, digest([js, v["exts"]])), "src": src, "fx": fx, "prf": js}
+            ev = {"tid": tid0 + n, "key": "obj:%s" % digest([js, v["exts"]]), "src": src, "fx": fx, "prf": js}
             if js:
                 ev["ng"] = run_check(thy, js, True)
                 ev["g"] = run_check(thy, js, False)
